@@ -44,7 +44,7 @@ TrReplyIds ==
 (* ---- builders --------------------------------------------------------- *)
 PayloadEncodingOk(e, sig) ==
     IF sig = "raw" THEN Len(e.pay_vals) = 1 /\ e.pay_vals[1] = [t |-> "s", v |-> e.payload]       \* byte for byte
-    ELSE IF sig = "t1" THEN Len(e.pay_vals) = 1 /\ e.payload_json = e.pay_vals[1]
+    ELSE IF sig \in {"t1", "bin"} THEN Len(e.pay_vals) = 1 /\ e.payload_json = e.pay_vals[1]
     ELSE e.payload_json = [t |-> "a", e |-> e.pay_vals]
 TrSubMsgBuilt ==
     /\ IsEvent("SubMsgBuilt") /\ st \in {"idle", "dispatched"}
@@ -54,7 +54,7 @@ TrSubMsgBuilt ==
             /\ Chk("C08", "reply_requested_for_exactly_the_outcomes_that_have_a_method", l, E.reply_on = ReplyOn(Pr, E.h))
             /\ Chk("C08", "wrapped_message_and_gas_limit_kept", l,
                    E.msg_eq /\ (E.recv = "submsg_gas" => E.gas_limit = "77") /\ (E.recv # "submsg_gas" => E.gas_limit = ""))
-            /\ Chk("C08", "payload_is_the_encoding_of_the_arguments", l, PayloadEncodingOk(E, PayloadSig(Pr, E.h)))
+            /\ Chk("C08", "payload_is_the_encoding_of_the_arguments", l, \E sig \in PayloadSigs(Pr, E.h) : PayloadEncodingOk(E, sig))
        ELSE TRUE
     /\ fx' = [fx EXCEPT !.built = E, !.builtseq = E.seq]
     /\ st' = "idle" /\ sub' = NoSub /\ rep' = NoRep /\ out' = NoOut
